@@ -1,10 +1,48 @@
 use crate::common::{Opts, Recorder};
 
+pub mod c01;
+pub mod c02;
+pub mod c03;
 pub mod c04;
+pub mod c05;
+pub mod c06;
+pub mod c07;
+pub mod c08;
+pub mod c09;
+pub mod c10;
+pub mod c11;
+pub mod c12;
+pub mod c13;
+pub mod c14;
+pub mod c15;
+pub mod c16;
+pub mod c17;
+pub mod c18;
+pub mod c19;
+pub mod c20;
 
 pub fn run(prop: &str, o: &Opts, rec: &mut Recorder) -> bool {
     match prop {
+        "c01" => c01::run(o, rec),
+        "c02" => c02::run(o, rec),
+        "c03" => c03::run(o, rec),
         "c04" => c04::run(o, rec),
+        "c05" => c05::run(o, rec),
+        "c06" => c06::run(o, rec),
+        "c07" => c07::run(o, rec),
+        "c08" => c08::run(o, rec),
+        "c09" => c09::run(o, rec),
+        "c10" => c10::run(o, rec),
+        "c11" => c11::run(o, rec),
+        "c12" => c12::run(o, rec),
+        "c13" => c13::run(o, rec),
+        "c14" => c14::run(o, rec),
+        "c15" => c15::run(o, rec),
+        "c16" => c16::run(o, rec),
+        "c17" => c17::run(o, rec),
+        "c18" => c18::run(o, rec),
+        "c19" => c19::run(o, rec),
+        "c20" => c20::run(o, rec),
         _ => return false,
     }
     true
